@@ -1060,7 +1060,9 @@ func opcodeBin2num(op *ParsedOpcode, t *thread) error {
 		return err
 	}
 
-	b := minimallyEncode(a)
+	// minimallyEncode rewrites its argument in place; the operand may be shared
+	// with other stack items and with the caller's script bytes
+	b := minimallyEncode(append([]byte(nil), a...))
 	if len(b) > t.cfg.MaxScriptNumberLength() {
 		return errs.NewError(errs.ErrNumberTooBig, "script numbers are limited to %d bytes", t.cfg.MaxScriptNumberLength())
 	}
